@@ -292,11 +292,30 @@ func runWatch(raw json.RawMessage) (interface{}, error) {
 		return nil, err
 	}
 	limit := len(in.Script) + spinSlack
-	return observeWatch(startWatch(in, mats, limit), limit)
+	return observeWatchRetry(func() *watcher { return startWatch(in, mats, limit) }, limit)
 }
 
-// observeWatch follows a started watcher up to its first sleep, its return, or a spin.
-func observeWatch(w *watcher, limit int) (interface{}, error) {
+// observeWatchRetry observes a fresh watcher; when the timing of that run was ambiguous (see observeWatch) the run
+// is repeated with another fresh watcher, three times at most. The last observation stands.
+func observeWatchRetry(start func() *watcher, limit int) (interface{}, error) {
+	var res interface{}
+	var err error
+	for try := 0; try < 3; try++ {
+		var ambiguous bool
+		res, ambiguous, err = observeWatch(start(), limit)
+		if err != nil || !ambiguous {
+			return res, err
+		}
+	}
+	return res, err
+}
+
+// observeWatch follows a started watcher up to its first sleep, its return, or a spin. ambiguous: a pause of
+// 900 ms or more lies between two loader invocations of the record - either a sleep this polling loop missed
+// (it was starved for more than a second) or the watcher itself was kept from running that long without sleeping;
+// wall-clock time cannot tell the two apart, so the caller repeats the run. Without such a pause the record is
+// exact: every sleep lasts at least a second.
+func observeWatch(w *watcher, limit int) (interface{}, bool, error) {
 	gid := <-w.gid
 	out := watchOut{}
 	deadline := time.Now().Add(60 * time.Second)
@@ -327,7 +346,7 @@ func observeWatch(w *watcher, limit int) (interface{}, error) {
 		}
 		if time.Now().After(deadline) {
 			w.finish()
-			return nil, fmt.Errorf("watcher neither slept nor returned nor spun within 60s")
+			return nil, false, fmt.Errorf("watcher neither slept nor returned nor spun within 60s")
 		}
 		time.Sleep(100 * time.Microsecond)
 	}
@@ -360,7 +379,7 @@ func observeWatch(w *watcher, limit int) (interface{}, error) {
 	out.Pubs = pubs
 	w.mu.Unlock()
 	w.finish()
-	return out, nil
+	return out, cut < n, nil
 }
 
 // ---- generator ----
